@@ -288,7 +288,7 @@ pub fn check_exhaustive(c: &ExhaustiveChunk, st: &mut Stats) -> Check {
 pub fn run(ctx: &Ctx) -> Report {
     let mut rep = Report::new(ID, "exploration", ctx);
     rep.rule = "Generated: descriptor ASTs (0..6 parameters; primitives, objects mapped / unmapped / adversarial names such as I, Lib, x/Long, L, IL, ZBCSIJFD, V, non-ASCII, a$b; arrays nested <= 3) against generated mappings; bounded-exhaustive: all descriptors with <= 3 parameters over a 6-type alphabet x 7 return types (1813) against a fixed mapping; per descriptor the precisely generated unterminated variants (';' of the last object parameter / of an object return removed), the three documented rejected shapes, and (for a subset) every single-character delete/insert/replace over an 11-character edit alphabet; arbitrary Unicode strings. Oracle: valid => parameters_types/return_type/format_signature equal the rendering computed from the descriptor AST with class names resolved through the reference model's class table; rejected shapes => None; every string: mapper == cache, no panic. evaluations = deobfuscate_signature calls/comparisons. Non-trivial = distinct valid descriptors with >=1 object or array type, plus distinct unterminated variants.".into();
-    rep.run_stage("ast", || map_case(&cfg()), ctx.cases(10_000, 150_000), check_case);
+    rep.run_stage("ast", || map_case(&cfg()), ctx.cases(10_000, 450_000), check_case);
     let chunks: Vec<ExhaustiveChunk> = (0..7).map(|ret| ExhaustiveChunk { ret }).collect();
     rep.run_enum("exhaustive", &chunks, check_exhaustive);
     rep.stats.exhaustive.push("all descriptors with <=3 parameters over the 6-type alphabet x 7 return types".into());
